@@ -180,8 +180,12 @@ Definition directive_ok (d : sdirective) : bool :=
 Definition arg_names_ok : bool :=
   nodupb (map to_lower (map fst (sp_env p) ++ sp_parties p ++ map fst (st_params t))).
 
+(** input blocks are keyed by their lower-cased name *)
+Definition input_names_ok : bool := nodupb (map (fun i => to_lower (in_name i)) (st_inputs t)).
+
 Definition tx_shallow_ok : bool :=
   arg_names_ok
+  && input_names_ok
   && forallb (fun pt => ty_ok prog_scope (snd pt)) (st_params t)
   && forallb (fun l => expr_ok (snd l)) (st_locals t)
   && forallb (fun i => opt_ok (in_from i) && opt_ok (in_min i) && opt_ok (in_ref i) && opt_ok (in_redeemer i)
